@@ -20,6 +20,7 @@ type Mono struct {
 	OK      bool
 	Why     string
 	Floored bool // an integer division was applied to a symbolic operand (result truncated)
+	Scaled  bool // ... and the truncated value was multiplied / divided again afterwards: k·floor(x) is never floor(k·x)
 }
 
 func monoConst(r *big.Rat) Mono { return Mono{Coef: r, OK: true} }
@@ -30,14 +31,17 @@ func (m Mono) mul(o Mono) Mono {
 	}
 	s := append(append([]string{}, m.Syms...), o.Syms...)
 	sort.Strings(s)
-	return Mono{Coef: new(big.Rat).Mul(m.Coef, o.Coef), Syms: s, OK: true, Floored: m.Floored || o.Floored}
+	scaled := m.Scaled || o.Scaled || (m.Floored && !isOne(o)) || (o.Floored && !isOne(m))
+	return Mono{Coef: new(big.Rat).Mul(m.Coef, o.Coef), Syms: s, OK: true, Floored: m.Floored || o.Floored, Scaled: scaled}
 }
+
+func isOne(m Mono) bool { return m.OK && len(m.Syms) == 0 && m.Coef.Cmp(big.NewRat(1, 1)) == 0 }
 
 func (m Mono) div(o Mono) Mono {
 	if !m.OK || !o.OK || len(o.Syms) > 0 || o.Coef.Sign() == 0 {
 		return Mono{Why: "division by a non-constant"}
 	}
-	return Mono{Coef: new(big.Rat).Quo(m.Coef, o.Coef), Syms: m.Syms, OK: true, Floored: m.Floored}
+	return Mono{Coef: new(big.Rat).Quo(m.Coef, o.Coef), Syms: m.Syms, OK: true, Floored: m.Floored, Scaled: m.Scaled || (m.Floored && !isOne(o))}
 }
 
 // floorDiv: integer division (truncating) — exact only when the dividend is a constant.
@@ -289,6 +293,9 @@ func (n *Normer) relOf(cond ssa.Value, env *nenv, d int) Rel {
 // FloorExact reports whether truncating divisions inside the relation leave it equivalent to the
 // exact rational comparison (for integer operands): L > floor(R), L <= floor(R), floor(L) < R, floor(L) >= R are exact.
 func (r Rel) FloorExact() bool {
+	if r.L.Scaled || r.R.Scaled {
+		return false
+	}
 	if r.R.Floored && (r.Op == token.LSS || r.Op == token.GEQ) {
 		return false
 	}
